@@ -210,11 +210,18 @@ fn step(env: &Env, st: &mut Store, m: &mut MStore, op: &SOp, rep: &mut Report) -
                     match st.merge_external_noblock(*dest, lt, classes.as_deref(), *hist) {
                         Ok(f) if dest.wrapping_add(src.id) % 3 == 0 => {
                             // fire and forget: the future is dropped at once, while the (slowed down) merge is still in
-                            // flight; the merge must take effect all the same and the store must keep serving. A blocking
-                            // lookup, which passes through every worker's queue, is the barrier before the state comparison.
+                            // flight; the merge must take effect all the same and the store must keep serving. The barrier
+                            // before the state comparison is a blocking merge into the same destination of a track carrying
+                            // the destination's own id: it queues behind the pending merge on the destination's worker and
+                            // is refused there without effect (same track / destination missing). (A lookup is no barrier:
+                            // nothing obliges the store to send it to a worker whose shard holds no track.)
                             drop(f);
                             env.plan.slow_us.store(0, std::sync::atomic::Ordering::SeqCst);
-                            let _ = st.lookup(WLookup::HasClass(0));
+                            if let Ok(bt) = lib_track(env, st, &Spec { id: *dest, compat: 1, obs: vec![] }) {
+                                if st.merge_external(*dest, &bt, None, false).is_ok() {
+                                    return Some(("C09/merge_external/same-track/ok-returned".into(), json!({"dest": dest, "note": "barrier merge of a track with the destination's own id"})));
+                                }
+                            }
                             rep.count("noblock_merges_whose_future_was_dropped");
                             // (the outcome is not observed: only the state comparison after this step judges the effect)
                             forgot = true;
